@@ -212,7 +212,7 @@ theorem netlocFacts_ip6 {ip : IpOracle} {t : Bytes} (ht : Ip6Text ip t) (port : 
       undecided := ?_ }
   · intro c hm
     rcases mem_plainJoin hm with h1 | h1 | h1
-    · simp only [List.append_assoc, List.cons_append, List.nil_append, List.mem_cons,
+    · simp only [List.cons_append, List.nil_append, List.mem_cons,
         List.mem_append, List.not_mem_nil, or_false] at h1
       rcases h1 with rfl | h1 | rfl
       · decide
